@@ -113,6 +113,13 @@ CHECKS = {
         "Trusted: interpreter tasks and reference retry interpreter; programs with a raise below a group are compared by outcome class only (completion-order dependent); bounded liveness for the distributed runs.",
         "DESIGN.md 3 C19, A.13",
     ),
+    "C20": (
+        "exploration",
+        "Hypothesis-generated system states x every GET route of the assembled FastAPI app (enumerated from its route table) with generated path/query parameters, served in-process; invariant oracle: full snapshot before == after",
+        "States are built by generated operation histories on both stacks (queues longer than the page limit, externalised list results, retries, waits, runners silent for hours under a virtual clock, optionally a queued id whose stored record was deleted). For each state every GET route is requested with existing / missing / malformed ids and limits -1..10^6; after every request, whatever the status code, the snapshot (queue ids in order, records, results, histories, wait graph, runner records, workflow runs, trigger state, table digests) must be identical.",
+        "Trusted: snapshot read-out; fastapi.testclient in-process; /switch-app/{id} skipped (monitor-local selection).",
+        "DESIGN.md 3 C20, A.14",
+    ),
 }
 
 NOT_YET = "check not built yet in this session (work in progress, see DESIGN.md section 3)"
